@@ -481,6 +481,31 @@ pub fn iter_cases(out: &mut Out, doc: &[u8], wellformed: bool) {
 
 pub fn run_c12(out: &mut Out, tier: &str, seed: u64) {
     let mut rng = Rng::new(seed);
+    // exhaustive token sequences after the opening bracket: the first/separator state machine
+    {
+        const T: &[&[u8]] = &[b"[", b"]", b"{", b"}", b",", b":", b"1", b"\"a\"", b" "];
+        let maxlen = if tier == "thorough" { 6 } else { 4 };
+        for open in [&b"["[..], b"{"] {
+            for len in 0..=maxlen {
+                let total = T.len().pow(len as u32);
+                for mut k in 0..total {
+                    let mut d: Vec<u8> = open.to_vec();
+                    for _ in 0..len {
+                        d.extend_from_slice(T[k % T.len()]);
+                        k /= T.len();
+                    }
+                    out.count("tokens");
+                    let h = hex(&d);
+                    let g = |r: Result<String, String>| r.unwrap_or_else(|p| format!("panic:{}", p.replace(['\t', '\n'], " ")));
+                    if open == b"[" {
+                        out.case("iterarr", &[&h, "to_array_iter"], &g(guarded(|| iter_transcript_arr(&d, false, sonic_rs::to_array_iter(&d[..])))), true);
+                    } else {
+                        out.case("iterobj", &[&h, "to_object_iter"], &g(guarded(|| iter_transcript_obj(&d, false, sonic_rs::to_object_iter(&d[..])))), true);
+                    }
+                }
+            }
+        }
+    }
     let ndocs = if tier == "thorough" { 15000 } else { 2000 };
     let cfg = Cfg { max_depth: 3, max_width: 6, dup_free: false, ..Cfg::default() };
     for i in 0..ndocs {
